@@ -134,6 +134,16 @@ fn run(ctx: &mut Ctx) {
         let s4 = SmallSubsets::abc3(4);
         ctx.exhaustive("abc3 subsets <=4 -r", s4.count(), &|i| Case::new(s4.subset(i), mk((1, 1))), &case_fn);
     }
+    // every single test case over {a,b} up to length 12 (quick: 11) and over {a,b,c} up to length 8
+    // (quick: 7): the -r pattern of ONE string must denote exactly that string
+    let singles: Vec<String> = {
+        let mut v = Universe::words(&["a", "b"], ctx.tier.pick(11, 12));
+        v.extend(Universe::words(&["a", "b", "c"], ctx.tier.pick(7, 8)).into_iter().filter(|w| w.contains('c')));
+        v
+    };
+    let sth: Vec<(u32, u32)> = vec![(1, 1), (2, 1), (1, 2), (2, 2), (3, 1), (1, 3)];
+    let nst = ctx.tier.pick(3u64, 6);
+    ctx.exhaustive("single test cases x thresholds", singles.len() as u64 * nst, &|i| Case::new(vec![singles[(i / nst) as usize].clone()], mk(sth[(i % nst) as usize])), &case_fn);
     let urep = Universe::rep_families();
     ctx.exhaustive("Urep x {(1,1),(2,1)}", urep.subset_count() * 2, &|i| Case::new(urep.subset(i / 2 + 1), mk(if i % 2 == 0 { (1, 1) } else { (2, 1) })), &case_fn);
     let u1 = Universe::u1();
